@@ -38,6 +38,7 @@ struct Hist<'a, T: Tbl> {
     rng: Rng,
     step: usize,
     nonconst: usize,
+    routes_tick: u64,
 }
 
 const OPS: [&str; 66] = [
@@ -95,6 +96,18 @@ impl<'a, T: Tbl> Hist<'a, T> {
             format!("step {} ({}): cmp == Equal is {} but the functions are {}: a={} b={}", step, opname, oeq, if same { "equal" } else { "different" },
                 vmon::ctx::hex_of_blocks(a.t_blocks()), vmon::ctx::hex_of_blocks(b.t_blocks()))
         });
+        // every 16th comparison also through the other std routes: <..>=, partial_cmp, HashSet, BTreeSet, sort,
+        // min/max, clone, clone_from (obs::eq_ord_hash_routes)
+        self.routes_tick = self.routes_tick.wrapping_add(1);
+        if self.routes_tick % 16 == 0 {
+            match guard(|| vmon::obs::eq_ord_hash_routes(a, b, same)) {
+                Outcome::Returned(Ok(k)) => self.ctx.checked("extensional-routes", k as u64),
+                Outcome::Returned(Err(route)) => self.ctx.violate("extensional-routes", self.ev, &format!("{}:{}", route, if same { "same-function" } else { "different-function" }), format!(
+                    "step {} ({}): route `{}` disagrees with the functions being {}: a={} b={}", step, opname, route, if same { "equal" } else { "different" },
+                    vmon::ctx::hex_of_blocks(a.t_blocks()), vmon::ctx::hex_of_blocks(b.t_blocks()))),
+                Outcome::Panicked(msg) => self.ctx.violate("no-panic", self.ev, "eq-routes", format!("comparison / hashing panicked: {}", msg)),
+            }
+        }
         if same {
             self.ctx.check("extensional-hash", heq, self.ev, &key, || {
                 format!("step {} ({}): equal functions hash differently: a={} b={}", step, opname,
@@ -493,6 +506,7 @@ fn exec<T: Tbl>(ctx: &mut Ctx, ev: &Ev) {
         rng: rng.fork(1),
         step: 0,
         nonconst: 0,
+        routes_tick: 0,
     };
     // start from a few constructors
     let starts: Vec<T> = match guard(|| vec![T::t_zero(n), T::t_random(n), T::t_from_blocks(n, &vmon::gen::any_fam(n, &mut rng).1)]) {
